@@ -441,8 +441,13 @@ func zeroOfSort(s string) *Term {
 		var w int
 		fmt.Sscanf(s, "(_ BitVec %d)", &w)
 		return mkBVu(0, w)
+	case s == "Float":
+		return mkRaw("float.zero", "Float")
 	case strings.HasPrefix(s, "(Array "):
 		_, e := splitArraySort(s)
+		if e == SStr || e == STime {
+			return mkRaw("zarr."+e, s)
+		}
 		return mkRaw(fmt.Sprintf("((as const %s) %s)", s, zeroOfSort(e).S), s)
 	}
 	panic("zeroOfSort: " + s)
@@ -467,4 +472,15 @@ func sanitize(s string) string {
 		}
 	}
 	return b.String()
+}
+
+// elemIndex: position off+i in a backing array; uninterpreted idx for symbolic offsets (triggers).
+func elemIndex(off, i *Term) *Term {
+	if off.Lit != nil && off.Lit.Sign() == 0 {
+		return i
+	}
+	if off.Lit != nil && i.Lit != nil {
+		return bvBin("bvadd", off, i)
+	}
+	return app(bvSort(64), "idx", off, i)
 }
